@@ -136,6 +136,8 @@ impl ContinuityStreamCache {
         if writer.write_all(line.as_bytes()).is_err() {
             return;
         }
+        #[cfg(rip_verif)]
+        verif_point("cache.full.body", event);
         if writer.write_all(b"\n").is_err() {
             return;
         }
@@ -250,6 +252,8 @@ impl ContinuityStreamCache {
         if writer.write_all(line.as_bytes()).is_err() {
             return;
         }
+        #[cfg(rip_verif)]
+        verif_point("cache.mr.body", event);
         if writer.write_all(b"\n").is_err() {
             return;
         }
@@ -311,6 +315,8 @@ impl ContinuityStreamCache {
         if writer.write_all(line.as_bytes()).is_err() {
             return;
         }
+        #[cfg(rip_verif)]
+        verif_point("cache.comp.body", event);
         if writer.write_all(b"\n").is_err() {
             return;
         }
